@@ -86,7 +86,7 @@ Cases == {[c |-> "eq", kind |-> k] : k \in StructuralKinds \cup AnnotationKinds 
          \cup {[c |-> "gate", kind |-> k, target |-> t, plugin |-> p, position |-> pos] :
                  k \in BadKinds, t \in Targets, p \in Plugins, pos \in {"only", "first", "last"}}
          \cup {[c |-> "eqg", def |-> dn, key |-> ky, op |-> o] : dn \in Defs, ky \in UNION {KeysOf(x) : x \in Defs}, o \in GOps}
-         \cup {[c |-> "load", files |-> n] : n \in {"full", "trimmed", "two", "three", "extension", "zoo"}}
+         \cup {[c |-> "load", files |-> n] : n \in {"full", "trimmed", "two", "three", "extension", "zoo", "zoo_ascii_locale"}}
          \* several operations on the SAME in-memory documents in one process: Load; Load; Eq; Load(first only)
          \cup {[c |-> "session", files |-> n] : n \in {"two", "three", "extension"}}
 Init == svCase \in Cases /\ svL = 0
